@@ -183,7 +183,9 @@ impl WireView {
                     let c = &self.conns[ci];
                     let my0 = c.first_data_seq(p.from_initiator).unwrap_or(0);
                     let peer0 = c.first_data_seq(!p.from_initiator).unwrap_or(0);
-                    (k.ty, k.seq.wrapping_sub(my0), k.ack.wrapping_sub(peer0), k.payload.len())
+                    // a SYN acknowledges nothing (its ack field is a constant, not a sequence number)
+                    let rel_ack = if k.ty == wire::ST_SYN { 0 } else { k.ack.wrapping_sub(peer0) };
+                    (k.ty, k.seq.wrapping_sub(my0), rel_ack, k.payload.len())
                 }
                 (Some(k), None) => (k.ty, k.seq, k.ack, k.payload.len()),
                 (None, _) => (255, 0, 0, p.len),
